@@ -893,10 +893,12 @@ class OneToOne(dict):
 
     def update(self, dict_or_iterable, **kw):
         keys_vals = []
-        if isinstance(dict_or_iterable, dict):
-            for val in dict_or_iterable.values():
+        if callable(getattr(dict_or_iterable, 'keys', None)):
+            # any mapping, as for dict.update (not only dict subclasses)
+            keys_vals = [(key, dict_or_iterable[key])
+                         for key in dict_or_iterable.keys()]
+            for _, val in keys_vals:
                 hash(val)
-                keys_vals = list(dict_or_iterable.items())
         else:
             keys_vals = list(dict_or_iterable)
             for key, val in keys_vals:
